@@ -185,7 +185,8 @@ def evaluate(ctx, cases, fresh_schema=False, with_spec=False):
             if plan is None:
                 c.out, c.cfg, c.handler = cfgrun.real_load(real, "\n".join(c.lines) + "\n", URL, c.overrides)
             else:
-                c.out, c.cfg, c.handler = cfgrun.real_load_path(real, plan, c.overrides)
+                c.out, c.cfg, c.handler = cfgrun.real_load_entry(real, plan, c.overrides, c.meta.get("entry", "abs"),
+                                                                 c.meta.get("main", "main.conf"))
             ctx.evaluations += 1
     finally:
         if root is not None:
